@@ -201,6 +201,14 @@ class HandlerGen:
             return [Leaf('unknown', ctx, expr=e, fw=fw, via=via, event=event)]
         if k == 'MethodCall' and e['method'] in ('clone', 'to_token_stream', 'into_token_stream') and not e['args']:
             return L(e['recv'])
+        # `syn::parse2(<stream>).unwrap()` / `?`: a typed re-parse of the stream; its tokens are those of the stream
+        x = e
+        if (k == 'MethodCall' and e['method'] in ('unwrap', 'expect')) or k == 'Try':
+            x = e['recv'] if k == 'MethodCall' else e['expr']
+            if x['k'] == 'Call' and x['func']['k'] == 'Path' and x['func']['path']['s'].split('::')[-1] == 'parse2' and len(x['args']) == 1:
+                return L(x['args'][0])
+        if k == 'Paren':
+            return L(e['expr'])
         return [Leaf('unknown', ctx, expr=e, fw=fw, via=via, event=event)]
 
     def block_leaves(self, block, ctx, fw, via, depth, event, optional):
